@@ -28,7 +28,11 @@ func (u *UseCase) UpdateTx(ctx context.Context, oldTxId, newTxId string, filter 
 		u.txStore.Put(newTxId, newTx)
 	}
 
-	newTx.RLock()
+	// The conflict check and the publication of the new versions must be one
+	// critical section: hold the write lock of the target from here on.
+	newTx.Lock()
+	defer newTx.Unlock()
+
 	var (
 		files     = make([]model.File, 0, tx.Len())
 		freeNodes = make([]*core.Node[model.File], 0, tx.Len())
@@ -67,7 +71,6 @@ func (u *UseCase) UpdateTx(ctx context.Context, oldTxId, newTxId string, filter 
 			freeNodes = append(freeNodes, n)
 		}
 	}
-	newTx.RUnlock()
 	if err != nil {
 		return
 	}
@@ -76,12 +79,8 @@ func (u *UseCase) UpdateTx(ctx context.Context, oldTxId, newTxId string, filter 
 		return
 	}
 
-	newTx.Lock()
 	u.allStore.Lock()
-	defer func() {
-		u.allStore.Unlock()
-		newTx.Unlock()
-	}()
+	defer u.allStore.Unlock()
 
 	err = u.fileRepo.RunTransaction(ctx, func(ctx context.Context) error {
 		for i := range files {
